@@ -944,7 +944,9 @@ def _build(name, seed):
             return BUILDERS[name](random.Random(seed))
 
 
-NARROW_FORMS = {"uint8": np.uint8, "int8": np.int8, "int16": np.int16, "int32": np.int32, "float32": np.float32}
+# integer arrays of every width (float32 arrays are NOT included: computing in single precision legitimately
+# changes results at the 1e-7 level, and the property speaks of equal-valued list / integer / floating-point forms)
+NARROW_FORMS = {"uint8": np.uint8, "int8": np.int8, "int16": np.int16, "int32": np.int32}
 
 
 def _as_form(a, form):
